@@ -1,5 +1,5 @@
 """The checks, one function per property; REGISTRY maps property id -> function."""
-import json, os, random, hashlib, re, time
+import json, os, random, hashlib, re, subprocess, time
 from concurrent.futures import ThreadPoolExecutor
 import verif, build, gen_hash
 
@@ -572,6 +572,7 @@ def gate_check(pid, tier, seed, replay, variant, mode, gen, rule, props):
     outs = run_jobs(jobs, exe, "TraceGate")
     nb, ne = collect(chk, outs, props | {"SPEC"}, marker="Mark")
     if pid == "C16":
+        compat_names_agree(chk)
         nb2, ne2 = legacy_agreement(chk, seed, tier)
         nb += nb2
         ne += ne2
@@ -601,6 +602,53 @@ def concurrent_gate(chk):
     for o in outs:
         o["result"]["viol"] = [v for v in o["result"]["viol"] if v["p"] != "C17" or v["what"] in keep]
     return collect(chk, outs, {"C17"}, marker="Mark")
+
+
+def compat_names_agree(chk):
+    """second clause of C16 at the source level: every deprecated spelling X that the v2.24 compatibility blocks of the public
+    headers define as a constant must have the value of ISAL_X (compile-time assertions generated from the headers; the
+    library itself is built with the compatibility blocks switched off, so no execution can see them)."""
+    inc = os.path.join(build.REPO, "include")
+    pairs, known = [], set()
+    for h in sorted(os.listdir(inc)):
+        if not h.endswith(".h"):
+            continue
+        text = open(os.path.join(inc, h)).read()
+        known.update(re.findall(r"\b(ISAL_[A-Z0-9_]+)\b", text))
+        inblk = False
+        for line in text.splitlines():
+            if "ifndef NO_COMPAT_ISAL_CRYPTO_API_2_24" in line:
+                inblk = True
+            elif inblk and line.startswith("#endif"):
+                inblk = False
+            elif inblk:
+                m = re.match(r"#define\s+([A-Z][A-Z0-9_]*)\s+(ISAL_[A-Z0-9_]+)\s*$", line)
+                if m:
+                    pairs.append((h, m.group(1), m.group(2)))
+    pairs = [(h, x, y) for h, x, y in pairs if "ISAL_" + x in known]
+    d = verif.scratch("compat")
+    hdrs = sorted({h for h, _, _ in pairs})
+
+    def compile_asserts(name, items, fmt):
+        src = os.path.join(d, name)
+        with open(src, "w") as f:
+            f.write("".join('#include <%s>\n' % h for h in hdrs))
+            for h, x, y in items:
+                f.write(fmt % (x, x, h, x))
+        r = subprocess.run(["gcc", "-fsyntax-only", "-fmax-errors=0", "-I" + inc, src], stdout=subprocess.PIPE, stderr=subprocess.STDOUT)
+        out = r.stdout.decode(errors="replace")
+        failed = set(re.findall(r'static assertion failed: "([^"]+)"', out))
+        errlines = {int(n) for n in re.findall(r"compat[a-z_]*\.c:(\d+):\d+: error", out)}
+        return failed, errlines, len(hdrs)
+    # constants first; what does not compile as an integer expression is a type name and is compared as a type
+    failed, errlines, off = compile_asserts("compat.c", pairs, '_Static_assert((long long) (%s) == (long long) (ISAL_%s), "%s: %s");\n')
+    types = [pairs[n - off - 1] for n in sorted(errlines) if 0 <= n - off - 1 < len(pairs) and ("%s: %s" % (pairs[n - off - 1][0], pairs[n - off - 1][1])) not in failed]
+    failed2, errlines2, _ = compile_asserts("compat_types.c", types, '_Static_assert(__builtin_types_compatible_p(%s, ISAL_%s), "%s: %s");\n')
+    if errlines2 - {len(hdrs) + 1 + i for i, t in enumerate(types) if ("%s: %s" % (t[0], t[1])) in failed2}:
+        raise verif.MachineryError("compat assertions did not compile as constants or as types")
+    chk.cov["compat_names_checked"] = {"constants": len(pairs) - len(types), "types": len(types)}
+    for b in sorted(failed | failed2):
+        chk.add_violation({"p": chk.prop, "what": "deprecated-name-differs-from-isal-name", "l": 0, "info": [b]}, replay_lines="# " + b + "\n")
 
 
 def legacy_agreement(chk, seed, tier):
